@@ -34,14 +34,41 @@ def make_jobs(tier, seed, build):
                 if n == 5 and gname in ("g1", "c1"):
                     continue
                 jobs.append({"id": "%s:%s" % (gname, ",".join(shape)), "grammar": gname, "shape": shape, "fs": "none"})
+    # text layer: State::construct on words over {-,=,a,b}: the FIRST literal `--` is pre-consumed,
+    # every later word (including further `--`, `-a`, `--a`) becomes a PosWord carrying the same bytes
+    lens = [(a, b) for a in range(0, 4) for b in range(0, 4) if a + b <= 5]
+    lens += [(a, b, c) for a in range(1, 3) for b in range(1, 3) for c in range(1, 3)]
+    if tier != "quick":
+        lens += [(a, b, c) for a in range(0, 4) for b in range(0, 4) for c in range(0, 4) if a + b + c <= 6 and (a, b, c) not in lens]
+        lens += [(2, 1, 2, 1), (2, 2, 2, 2), (1, 2, 1, 2), (2, 2, 1, 2)]
+    for ls in lens:
+        jobs.append({"id": "construct:small:%s" % ",".join(map(str, ls)), "kind": "construct", "lens": ls, "alpha": "small"})
     return jobs
 
 
 def run_job(job, build):
+    if job.get("kind") == "construct":
+        from . import C02
+        return C02.run_construct_job(job, build)
     return run_tok_job(job, build, CORPUS, Oracle())
 
 
 def finish(results, jobs, build, out, tier, seed, wall):
     nmax = 4 if tier == "quick" else 5
-    return finish_tok(PROP, results, jobs, build, out, tier, seed, wall, Oracle(), CORPUS,
-                      {"argv_words": "0..=%d (shapes containing `--`; strict grammars also without it, <= 3 words)" % nmax, "grammars": len(GRAMMARS)})
+    from . import C02, framework as fw
+    byid = {j["id"]: j for j in jobs}
+    text = [r for r in results if byid[r["job"]].get("kind") == "construct"]
+    results = [r for r in results if byid[r["job"]].get("kind") != "construct"]
+    jobs = [j for j in jobs if j.get("kind") != "construct"]
+    C02.report_text_results(out, text)
+    ev = finish_tok(PROP, results, jobs, build, out, tier, seed, wall, Oracle(), CORPUS,
+                      {"argv_words": "0..=%d (shapes containing `--`; strict grammars also without it, <= 3 words)" % nmax, "grammars": len(GRAMMARS),
+                     "construct": "State::construct from MIR on 2-3 (thorough: -4) words over the bytes {-,=,a,b}"})
+    st = fw.merge_stats(text)
+    ev["coverage"]["construct_jobs"] = len(text)
+    ev["coverage"]["construct_paths"] = st["paths"]
+    ev["coverage"]["construct_obligations"] = sum(r.get("obligations", 0) for r in text)
+    ev["coverage"]["evaluations"] += st["queries"]
+    ev["coverage"]["states"] += st["paths"]
+    ev["assumptions"].append("construct jobs: reference tokenization from props/C02.py; words over a 4-byte alphabet")
+    return ev
